@@ -62,6 +62,18 @@ fn keygen_case<const N: usize>(ctx: &mut Ctx, idx: usize) {
         keypair_oracle::<N>(ctx, &kp, "random");
         // signatures made with a generated key verify
         let ms = edge_vec(&mut ctx.prng, N);
+        // a signing stream whose first scalar draws would be zero must still give a verifying signature
+        {
+            let mut rng0 = ScriptedRng::new(ctx.prng.gen(), ctx.book.clone());
+            rng0.force_scalars(&[Scalar::zero(), Scalar::zero()]);
+            let sig0 = wire::msg::<N>(&ms).sign(&mut rng0, &kp);
+            ctx.evals += 1;
+            let good = sig0.is_well_formed() && sig0.verify(kp.public_key(), &wire::msg::<N>(&ms));
+            ctx.count(&format!("sign-under-zero-scalar-draws:{}", if good { "verifies" } else { "BROKEN" }));
+            if !good {
+                ctx.violation("a signature produced by sign() under a stream whose scalar draws start with zeros does not verify on its own message", json!({"class": "sign-degenerate-stream", "N": N}));
+            }
+        }
         let mut rng = ScriptedRng::new(ctx.prng.gen(), ctx.book.clone());
         let sig = wire::msg::<N>(&ms).sign(&mut rng, &kp);
         if let (Some(h), Some(_)) = (ctx.book.dlog_g1(&sig.sigma1()), Some(())) {
@@ -72,7 +84,7 @@ fn keygen_case<const N: usize>(ctx: &mut Ctx, idx: usize) {
         }
     }
     // all-zero windows at every offset / width aligned with a scalar draw
-    for offset in 0..=N {
+    for offset in 0..=N + 3 {
         for width in 1..=2 {
             let forced = zero_window(ctx, offset, width);
             // the unscripted comparison first (oracle only), then the model comparison
@@ -114,7 +126,12 @@ fn range_params_case(ctx: &mut Ctx, idx: usize, offset: usize, width: usize) {
     if !ctx.begin_case(idx, "range-params-new") {
         return;
     }
-    let forced = if width == 0 { vec![] } else { zero_window(ctx, offset, width) };
+    // width 99: a range key with x = -i·y, for which the signature on digit i has σ₂ = 1 (still a valid signature)
+    let forced = if width == 0 { vec![] } else if width == 99 {
+        let y = nonzero(&mut ctx.prng);
+        let i = [1u64, 2, 64, 127][offset % 4];
+        vec![-(Scalar::from(i) * y), y]
+    } else { zero_window(ctx, offset, width) };
     if let Some((rp, rpd)) = rp_generated(ctx, &forced) {
         let valid = rp.validate().is_ok();
         let _ = ctx.expect(&format!("rp-validate {}", rpd.args()), &[Real::B(valid)]);
@@ -182,7 +199,7 @@ pub fn run(ctx: &mut Ctx) {
             crate::dispatch_n!(ped_g1, ctx, idx, n); idx += 1;
             crate::dispatch_n!(ped_g2, ctx, idx, n); idx += 1;
         }
-        for (o, w) in [(0, 0), (0, 1), (1, 1), (0, 2), (1, 2), (2, 1)] {
+        for (o, w) in [(0, 0), (0, 1), (1, 1), (0, 2), (1, 2), (2, 1), (3, 2), (0, 99), (1, 99), (2, 99), (3, 99)] {
             range_params_case(ctx, idx, o, w); idx += 1;
         }
     }
